@@ -365,3 +365,150 @@ def gen_history_spec(rng, length=None, zero_dim_rate=0.0, nofunc_rate=0.0):
 
 def read_parsed(path: Path):
     return json.loads(path.read_text()) if path.exists() else None
+
+
+# ---------------------------------------------------------------- in-Coq shard (thorough tier): tokens -> Coq terms
+# A sample of the cases sent to the extracted OCaml model is also written as Coq Examples
+#   Example shard_i : <model function applied to the case> = <what the driver answered>. Proof. vm_compute. reflexivity. Qed.
+# and compiled with coqc: if it compiles, extraction + driver printing agree with evaluation inside Coq on that shard.
+def coq_str(tok: str) -> str:
+    b = b"" if tok == "-" else bytes.fromhex(tok)
+    return "[" + "; ".join(str(x) for x in b) + "]%N" if b else "(@nil N)"
+
+
+def coq_q(tok: str) -> str:
+    num, _, den = tok.partition("/")
+    neg = num.startswith("-")
+    n = int(num.lstrip("-"), 16)
+    d = int(den, 16) if den else 1
+    return f"(Qmake ({'-' if neg and n else ''}{n})%Z {d}%positive)"
+
+
+class _Toks:
+    def __init__(self, s):
+        self.t = s.split()
+        self.i = 0
+
+    def next(self):
+        x = self.t[self.i]
+        self.i += 1
+        return x
+
+    def done(self):
+        return self.i >= len(self.t)
+
+
+def _coq_list(items, ty=None):
+    if not items:
+        return f"(@nil {ty})" if ty else "[]"
+    return "[" + "; ".join(items) + "]"
+
+
+def coq_jv(t: _Toks) -> str:
+    k = t.next()
+    if k == "n":
+        return f"(St_JNum {coq_q(t.next())})"
+    if k == "nan":
+        return "St_JNaN"
+    if k == "s":
+        return f"(St_JStr {coq_str(t.next())})"
+    if k in ("t", "f"):
+        return f"(St_JBool {'true' if k == 't' else 'false'})"
+    if k == "z":
+        return "St_JNull"
+    if k == "l":
+        n = int(t.next())
+        return f"(St_JList {_coq_list([coq_jv(t) for _ in range(n)], 'st_jv')})"
+    if k == "o":
+        n = int(t.next())
+        items = []
+        for _ in range(n):
+            key = coq_str(t.next())
+            items.append(f"({key}, {coq_jv(t)})")
+        return f"(St_JObj {_coq_list(items, '(st_str * st_jv)')})"
+    raise ValueError(k)
+
+
+def coq_meta(t: _Toks) -> str:
+    k = t.next()
+    if k == "n":
+        return f"(St_MNum {coq_q(t.next())})"
+    if k == "nan":
+        return "St_MNaN"
+    if k == "s":
+        return f"(St_MStr {coq_str(t.next())})"
+    if k in ("t", "f"):
+        return f"(St_MBool {'true' if k == 't' else 'false'})"
+    if k == "z":
+        return "St_MNull"
+    if k == "l":
+        n = int(t.next())
+        return f"(St_MList {_coq_list([coq_meta(t) for _ in range(n)], 'st_meta')})"
+    if k == "o":
+        n = int(t.next())
+        items = []
+        for _ in range(n):
+            key = coq_str(t.next())
+            items.append(f"({key}, {coq_meta(t)})")
+        return f"(St_MDict {_coq_list(items, '(st_str * st_meta)')})"
+    if k == "p":
+        return f"(St_MPath {coq_str(t.next())})"
+    if k == "r":
+        return f"(St_MRepr {coq_str(t.next())})"
+    raise ValueError(k)
+
+
+def coq_arr(t: _Toks) -> str:
+    rank = int(t.next())
+    shape = [t.next() for _ in range(rank)]
+    cnt = int(t.next())
+    cells = []
+    for _ in range(cnt):
+        c = t.next()
+        cells.append("St_NaN" if c == "nan" else f"(St_Num {coq_q(c)})")
+    return f"(st_mkarr {_coq_list([s + '%nat' for s in shape], 'nat')} {_coq_list(cells, 'st_cell')})"
+
+
+def coq_output(t: _Toks) -> str:
+    d = coq_arr(t)
+    a = coq_arr(t)
+    n = int(t.next())
+    items = []
+    for _ in range(n):
+        key = coq_str(t.next())
+        items.append(f"({key}, {coq_meta(t)})")
+    return f"(st_mkout {d} {a} {_coq_list(items, '(st_str * st_meta)')})"
+
+
+def coq_store(t: _Toks) -> str:
+    n = int(t.next())
+    items = []
+    for _ in range(n):
+        key = coq_str(t.next())
+        items.append(f"({key}, {coq_jv(t)})")
+    return _coq_list(items, "(st_str * st_jv)")
+
+
+def coq_bytes(b: bytes) -> str:
+    return "[" + "; ".join(str(x) for x in b) + "]%N" if b else "(@nil N)"
+
+
+def run_coq_shard(ctx, name: str, imports: str, examples: list[str], timeout=600):
+    """Compile the examples; returns (ok, log tail, seconds)."""
+    import subprocess
+    import time
+    import common
+    src = ctx.work / f"cases_{name}.v"
+    body = [f"From Coq Require Import List NArith QArith Bool Arith.", f"From ICG Require Import {imports}.",
+            "Import ListNotations.", "Open Scope list_scope."]
+    for i, e in enumerate(examples):
+        body.append(f"Example shard_{i} : {e}.\nProof. vm_compute. reflexivity. Qed.")
+    src.write_text("\n".join(body) + "\n")
+    t0 = time.time()
+    lock = common._lock()
+    try:
+        p = subprocess.run(["timeout", str(timeout), "coqc", "-Q", str(common.COQ / "theories"), "ICG", str(src)],
+                           capture_output=True, text=True, cwd=ctx.work)
+    finally:
+        lock.close()
+    return p.returncode == 0, (p.stdout + p.stderr)[-1500:], round(time.time() - t0, 1)
